@@ -238,6 +238,7 @@ var c10Decls = []declFrag{
 	dirty(`}position: fixed`), dirty(`{}color: red`), dirty(`/**/ }`), dirty(` `), dirty(`color: red\ `), dirty("color: red\\\t"),
 	dirty("color: \\72  ed"), dirty("color: r\\65\t\td"), dirty("color: \\72\n\ned"),
 	dirty(`font-family: x\\\ `), dirty(`color: \ `), dirty(`color: red\21 important`), dirty(`color: red ! important`), dirty(`color: red !important !important`),
+	dirty(`background: u\rl(x)`), dirty(`background: \55rl(x)`), dirty(`color: EXPRESSION(x)`), dirty(`font-family: a(/*)*/`), dirty(`font-family: a/*(*/`),
 	dirty(`color: a(`), dirty(`color: b)`), dirty(`font-family: [x`), dirty(`font-family: "a`), dirty(`color: rgb(1`),
 	dirty(`font-family: \110000 x`), dirty(`font-family: \0 `), dirty(`color:red`), dirty(`color : red`), dirty(`color: "red"`),
 }
@@ -298,6 +299,9 @@ func c10Specs() []built {
 		spec.Spec{Name: "c10-re-permissive", Base: "new", Calls: []C{els("p", "span"), {Op: "AllowElementsMatching", Re: reMy},
 			{Op: "AllowStyles", Names: []string{"color", "font-family"}, Re: `^[a-zA-Z0-9\\ ,'"#()\[\]-]*$`, Scope: "global"},
 			{Op: "AllowStyles", Names: []string{"width"}, Re: `^[A-Za-z0-9\\ ]+$`, Scope: "on", On: []string{"p"}}}},
+		// a matcher that accepts everything except some constructs: what it judges must be what a browser reads
+		spec.Spec{Name: "c10-excluding-handler", Base: "new", Calls: []C{els("p", "span"), {Op: "AllowElementsMatching", Re: reMy},
+			{Op: "AllowStyles", Names: []string{"color", "font-family", "background"}, Handler: "no-url", Scope: "global"}}},
 		// enum entries and property names spelled with upper-case letters by the caller
 		spec.Spec{Name: "c10-enum-mixed-case", Base: "new", Calls: []C{els("p", "span"), {Op: "AllowElementsMatching", Re: reMy},
 			{Op: "AllowStyles", Names: []string{"Color", "FONT-family"}, Enum: []string{"Red", "GREEN", "Arial"}, Scope: "global"},
